@@ -97,21 +97,25 @@ func runC15(c *explore.Ctx) {
 			return true
 		})
 		// cyclic workloads: words of length <= 4 with at least one write and one Compact, repeated
+		// all cyclic words up to maxLen; one letter longer for the words that also restart (metadata written
+		// in one session and consumed by a compaction in a later one needs write, write, Reopen, Compact)
 		maxLen := 3
 		if c.Thorough() {
 			maxLen = 4
 		}
-		for l := 2; l <= maxLen; l++ {
+		for l := 2; l <= maxLen+1; l++ {
+			l := l
 			enumWords(c, letters, l, func(word []explore.Op, _ int) bool {
 				if c.Expired() {
 					return false
 				}
-				hasW, hasC := false, false
+				hasW, hasC, hasR := false, false, false
 				for _, o := range word {
 					hasW = hasW || o.Kind == explore.Put || o.Kind == explore.Delete
 					hasC = hasC || o.Kind == explore.Compact
+					hasR = hasR || o.Kind == explore.Reopen
 				}
-				if !hasW || !hasC {
+				if !hasW || !hasC || (l > maxLen && !hasR) {
 					return true
 				}
 				if v := runWordC15(c, base, sp, word, 1, 16); v != nil {
